@@ -55,6 +55,11 @@ THEOREMS = [
     "C06.preserve_passthrough", "Sys.C07.exc_identity",
 ] + list(_once.THEOREMS)
 GENERATED_OBLIGATIONS = list(_once.GENERATED_OBLIGATIONS)
+# theorems about the string forms *translated from the current source* (extractor E13, lean/Eliot/Generated/LevelStr.lean)
+TL_THEOREMS = ["Level.C06TL.fromString_eq", "Level.C06TL.toString_eq", "Level.C06TL.serializeTaskId_eq", "Level.C06TL.parseText_eq",
+               "Level.C06TL.parseBytes_eq", "Level.C06TL.translated_level_roundtrip", "Level.C06TL.translated_task_id_roundtrip"]
+SKELETON_TARGETS = {"Level.C06TL.translated_string_forms (E13: TaskLevel.fromString/toString, serialize_task_id, the decoding half of "
+                    "continue_task, translated from eliot/_action.py)": ("Eliot.Properties.C06TL", "Eliot/Audit/C06TL.lean", TL_THEOREMS)}
 RULE = ("(a) levels: length 0..8 (sometimes 50..300), components drawn from {0, 1..9, 10..999, 10**k - 1, 10**k, up to 10**20}; uuids: "
         "uuid4-shaped, printable ASCII without '@', a few non-ASCII; malformed level / id strings over the alphabet '/0-9 +-_x@' plus "
         "fixed corner cases. (b) programs: 1-2 origin trees, nested with-blocks (depth <= 3), failing blocks, hand-offs at any point of any "
